@@ -338,6 +338,12 @@ func PublishContext[T any](bus *EventBus, ctx context.Context, event T) {
 			}
 		}
 
+		// A delivery that is skipped because the context is already cancelled
+		// must not use up a once handler, so check before claiming it
+		if ctx.Err() != nil {
+			continue
+		}
+
 		// For once handlers, use CompareAndSwap to ensure atomic execution
 		if h.once {
 			if !atomic.CompareAndSwapUint32(&h.executed, 0, 1) {
